@@ -7,7 +7,7 @@ SAN ?= -fsanitize=address,bounds,null,return,unreachable,vla-bound,integer-divid
 OPT ?= -O1
 INCS := $(foreach d,common theta tuple hll cpc kll req quantiles fi count sampling tdigest filters density,-I$(REPO)/$(d)/include)
 CXXFLAGS := -std=c++17 $(OPT) -g1 $(SAN) -DDATASKETCHES_VERIF $(INCS) -fno-omit-frame-pointer -Wall -Wno-unused-function -Wno-unused-variable
-SIMH := $(wildcard sim/*.hpp)
+SIMH := $(wildcard sim/*.hpp) $(wildcard $(REPO)/*/include/*.hpp) $(wildcard $(REPO)/*/include/*.h)
 
 BINS := store_d store_q store_m
 
